@@ -130,6 +130,14 @@ func c19Cases() []c19Case {
 		{"create-batch-size-session", func(db *gorm.DB, v []int) *gorm.DB {
 			return db.Session(&gorm.Session{CreateBatchSize: 2}).Create(&[]Item{{Name: "a", Age: v[0]}, {Name: "b", Age: v[1]}, {Name: "c"}})
 		}},
+		// a sub-query handle derived from the same (possibly dry-run) handle, bound more
+		// than once: in two successive statements and twice in one statement
+		{"subquery-reused", func(db *gorm.DB, v []int) *gorm.DB {
+			sub := db.Model(&Item{}).Select("id").Where("name LIKE ?", "n%")
+			var r []Item
+			db.Where("name = ? AND id IN (?)", "x", sub).Find(&r)
+			return db.Where("age = ? AND (id IN (?) OR score IN (?))", v[0], sub, sub).Find(&r)
+		}},
 		{"rows", func(db *gorm.DB, v []int) *gorm.DB {
 			tx := db.Model(&Item{}).Where("age = ?", v[0])
 			rows, err := tx.Rows()
@@ -205,8 +213,8 @@ func H_C19_Twice(shape int) {
 	// the exposed statement is the main statement of the real run
 	first, ok := firstStatement(sReal)
 	verifrt.Assert(ok, "C19.real-sent-nothing")
-	if hasPrefix(c.name, "create-in-batches") || hasPrefix(c.name, "create-batch-size") {
-		// several INSERTs are sent: the exposed statement is one of them (the last batch)
+	if hasPrefix(c.name, "create-in-batches") || hasPrefix(c.name, "create-batch-size") || c.name == "subquery-reused" {
+		// several statements are sent: the exposed statement is the last one
 		for _, e := range sReal.Log {
 			if e.Kind == "EXEC" || e.Kind == "QUERY" {
 				first = e
@@ -264,7 +272,7 @@ func H_C19_ToSQL(shape int) {
 	verifrt.Assert(len(sDry.Log) == 0, "C19.tosql-driver-call")
 	first, ok := firstStatement(sReal)
 	verifrt.Assert(ok, "C19.real-sent-nothing")
-	if hasPrefix(c.name, "create-in-batches") || hasPrefix(c.name, "create-batch-size") {
+	if hasPrefix(c.name, "create-in-batches") || hasPrefix(c.name, "create-batch-size") || c.name == "subquery-reused" {
 		for _, e := range sReal.Log {
 			if e.Kind == "EXEC" || e.Kind == "QUERY" {
 				first = e
